@@ -297,13 +297,13 @@ do_reorder(void)
   wblk = dequeue(reord_q);
   order = wblk->next;
 
-  sink_write_buffer(wblk->buffer, wblk->size, wblk->weight);
-  combined_crc = combine_crc(combined_crc, wblk->crc);
   VERIF_EV("\"e\":\"Reorder\",\"maj\":%lu,\"min\":%lu,\"nmaj\":%lu,"
            "\"nmin\":%lu,\"weight\":%lu,\"size\":%lu,\"crch\":%u,\"crcl\":%u," VST,
            VP(wblk->pos), VP(wblk->next), (unsigned long)wblk->weight,
            (unsigned long)wblk->size, (unsigned)(wblk->crc >> 16),
            (unsigned)(wblk->crc & 0xFFFF), VSA);
+  sink_write_buffer(wblk->buffer, wblk->size, wblk->weight);
+  combined_crc = combine_crc(combined_crc, wblk->crc);
 
   free(wblk);
 }
@@ -398,7 +398,7 @@ init(void)
   assert(1 <= bs100k && bs100k <= 9);
   combined_crc = 0;
   VERIF_EV("\"e\":\"Init\",\"W\":%u,\"tin\":%u,\"tout\":%u,\"ultra\":%d,"
-           "\"thresh\":%d,\"cap\":%lu,\"tasks\":\"%s,%s,%s,%s\"," VST, num_worker,
+           "\"thresh\":%d,\"cap\":%lu,\"tasks\":[\"%s\",\"%s\",\"%s\",\"%s\"]," VST, num_worker,
            in_slots, out_slots, (int)ultra, TRANSM_THRESH,
            (unsigned long)(bs100k * 100000u), compression.tasks[0].name,
            compression.tasks[1].name, compression.tasks[2].name,
